@@ -10,9 +10,12 @@ import (
 	"os"
 	"path/filepath"
 	"runtime"
+	"sort"
+	"strconv"
 	"strings"
 	"sync"
 	"testing"
+	"verif/internal/entities"
 
 	"pgregory.net/rapid"
 	"verif/internal/gen"
@@ -252,11 +255,11 @@ func runBatch(inputs [][]byte, goroutines int) error {
 	}
 	offs[len(inputs)] = len(arena)
 	arenaCopy := append([]byte(nil), arena...)
-	wantParse := make([]string, len(inputs))
-	for i, in := range inputs {
-		b, r := cm.Parse(append([]byte(nil), in...))
-		wantParse[i] = dumpAll(b, r)
-	}
+	// (the sequential results are computed after the concurrent phase, so that
+	// nothing the library might compute once and keep - a table filled on
+	// first use, a cache of answers - is warm when the goroutines start)
+	gotParse := make([]string, len(inputs))
+	gotStream := make([]string, len(inputs))
 	errs := make(chan error, goroutines*8+len(inputs)*8+16)
 	var wg sync.WaitGroup
 	start := make(chan struct{})
@@ -271,9 +274,7 @@ func runBatch(inputs [][]byte, goroutines int) error {
 			}()
 			<-start
 			b, r := cm.Parse(arena[offs[i]:offs[i+1]])
-			if got := dumpAll(b, r); got != wantParse[i] {
-				errs <- fmt.Errorf("concurrent Parse of input %d differs from the sequential result", i)
-			}
+			gotParse[i] = dumpAll(b, r)
 		}(i)
 		go func(i int) {
 			defer wg.Done()
@@ -288,9 +289,7 @@ func runBatch(inputs [][]byte, goroutines int) error {
 				errs <- fmt.Errorf("concurrent streaming parse of input %d: %v", i, err)
 				return
 			}
-			if got := dumpAll(b, r); got != wantParse[i] {
-				errs <- fmt.Errorf("concurrent streaming parse of input %d differs from the sequential Parse", i)
-			}
+			gotStream[i] = dumpAll(b, r)
 		}(i)
 	}
 	// (a') the streaming API with one InlineParser value shared by all
@@ -312,9 +311,7 @@ func runBatch(inputs [][]byte, goroutines int) error {
 			sb.WriteString(tree.DumpRoot(b, 0, 0))
 		}
 	}
-	for i, in := range inputs {
-		wantShared[i], _ = rewriteAll(in)
-	}
+	gotShared := make([]string, len(inputs))
 	for i := range inputs {
 		wg.Add(1)
 		go func(i int) {
@@ -328,8 +325,8 @@ func runBatch(inputs [][]byte, goroutines int) error {
 			got, err := rewriteAll(inputs[i])
 			if err != nil {
 				errs <- fmt.Errorf("concurrent streaming parse of input %d with a shared InlineParser: %v", i, err)
-			} else if got != wantShared[i] {
-				errs <- fmt.Errorf("concurrent Rewrite of input %d through a shared InlineParser differs from the sequential result", i)
+			} else {
+				gotShared[i] = got
 			}
 		}(i)
 	}
@@ -337,6 +334,19 @@ func runBatch(inputs [][]byte, goroutines int) error {
 	wg.Wait()
 	if !bytes.Equal(arena, arenaCopy) {
 		return fmt.Errorf("the buffer holding the inputs was modified by the concurrent parses")
+	}
+	for i, in := range inputs {
+		if wantShared[i], _ = rewriteAll(in); gotShared[i] != "" && gotShared[i] != wantShared[i] {
+			return fmt.Errorf("concurrent Rewrite of input %d through a shared InlineParser differs from the sequential result", i)
+		}
+		b, r := cm.Parse(append([]byte(nil), in...))
+		want := dumpAll(b, r)
+		if gotParse[i] != want {
+			return fmt.Errorf("concurrent Parse of input %d differs from the sequential result", i)
+		}
+		if gotStream[i] != "" && gotStream[i] != want {
+			return fmt.Errorf("concurrent streaming parse of input %d differs from the sequential Parse", i)
+		}
 	}
 
 	// (b) one shared tree rendered, formatted and walked concurrently
@@ -513,8 +523,30 @@ func genBatch(t *rapid.T) harness.Case {
 		c.SetB(fmt.Sprintf("in%02d", i), gen.Doc().Draw(t, "in"))
 	}
 	c.SetI("goroutines", []int{8, 16, 32, 64}[rapid.IntRange(0, 3).Draw(t, "g")])
+	// two documents of named character references drawn from the whole table:
+	// names that no earlier batch of this process has met (a cache of verdicts
+	// filled on first use is written during the concurrent phase)
+	for k := 0; k < 2; k++ {
+		var sb strings.Builder
+		for j := 0; j < 40; j++ {
+			sb.WriteString("&" + entityNames[rapid.IntRange(0, len(entityNames)-1).Draw(t, "entity")] + " &x" + strconv.Itoa(rapid.IntRange(0, 1<<30).Draw(t, "bogus")) + "; ")
+			if j%8 == 7 {
+				sb.WriteString("\n\n")
+			}
+		}
+		c.SetB(fmt.Sprintf("in%02d", n+k), []byte(sb.String()))
+	}
 	return c
 }
+
+var entityNames = func() []string {
+	var ns []string
+	for n := range entities.Names {
+		ns = append(ns, n)
+	}
+	sort.Strings(ns)
+	return ns
+}()
 
 const rule = "batch of 4-16 G1/G2/G3 inputs x 8-64 goroutines behind a start barrier: (a) each input parsed (in-memory, as adjacent sub-slices of one shared buffer; streaming; streaming through one shared InlineParser value) concurrently, (b) plus three large documents of 40-70 rotated copies of the inputs (hundreds of root blocks each) parsed at the same time, (b) the concatenation (plus raw HTML with upper-case tag names) parsed once, its tree and reference map untouched until the goroutines start (expected results come from a second parse), and rendered by shared HTMLRenderer values under all 24 configurations, formatted and walked concurrently; oracle = race detector log stays empty and every result equals the sequential one; non-trivial = batch has >= 4 inputs including reference syntax and raw HTML"
 
